@@ -23,6 +23,8 @@ import (
 //	union Thing = Item | Person
 //	input Nest { p: Pt, l: [Int], ps: [Pt], ll: [[Int]] }
 //	type Query { tag echo(s,i,f,b,l,e,o,id) mut(o: Pt, l: [Int], ll: [[Int]], os: [Pt], n: Nest) item(id) items(n, from) node(id) things(n) fail(msg) }
+//	enum Mood { HAPPY SAD BOTH } (internal "h","s","h s")   input Pair { a: String, b: String }
+//	Query.coll / Query.coll2 / Item.coll (ss: [String], sr: [String!], sss: [[String]], ids: [ID], p: Pair, ps: [Pair], ms: [Mood], fs: [Float], f, id, s)
 //	(Item has mut too.)  echo and mut MUTATE the argument values they received, at every nesting level, after
 //	computing their answer: a plan that shares pre-coerced literal arguments between executions shows the residue.
 //	type Mutation { bump(by: Int): String }
@@ -47,6 +49,22 @@ func newSchema(tag string) *graphql.Schema {
 		"o": &graphql.ArgumentConfig{Type: pt}, "l": &graphql.ArgumentConfig{Type: graphql.NewList(graphql.Int)},
 		"ll": &graphql.ArgumentConfig{Type: graphql.NewList(graphql.NewList(graphql.Int))},
 		"os": &graphql.ArgumentConfig{Type: graphql.NewList(pt)}, "n": &graphql.ArgumentConfig{Type: nest},
+	}
+	// Mood's internal values are chosen so that two different lists of them print alike under fmt %v ([BOTH] and
+	// [HAPPY, SAD] are both "[h s]"); Pair has String fields for the same reason ({a: "1 b:2"} / {a: "1", b: "2"}).
+	mood := graphql.NewEnum(graphql.EnumConfig{Name: "Mood", Values: graphql.EnumValueConfigMap{
+		"HAPPY": &graphql.EnumValueConfig{Value: "h"}, "SAD": &graphql.EnumValueConfig{Value: "s"}, "BOTH": &graphql.EnumValueConfig{Value: "h s"},
+	}})
+	pair := graphql.NewInputObject(graphql.InputObjectConfig{Name: "Pair", Fields: graphql.InputObjectConfigFieldMap{
+		"a": &graphql.InputObjectFieldConfig{Type: graphql.String},
+		"b": &graphql.InputObjectFieldConfig{Type: graphql.String},
+	}})
+	collArgs := graphql.FieldConfigArgument{
+		"ss": &graphql.ArgumentConfig{Type: graphql.NewList(graphql.String)}, "sr": &graphql.ArgumentConfig{Type: graphql.NewList(graphql.NewNonNull(graphql.String))},
+		"sss": &graphql.ArgumentConfig{Type: graphql.NewList(graphql.NewList(graphql.String))}, "ids": &graphql.ArgumentConfig{Type: graphql.NewList(graphql.ID)},
+		"p": &graphql.ArgumentConfig{Type: pair}, "ps": &graphql.ArgumentConfig{Type: graphql.NewList(pair)},
+		"ms": &graphql.ArgumentConfig{Type: graphql.NewList(mood)}, "fs": &graphql.ArgumentConfig{Type: graphql.NewList(graphql.Float)},
+		"f": &graphql.ArgumentConfig{Type: graphql.Float}, "id": &graphql.ArgumentConfig{Type: graphql.ID}, "s": &graphql.ArgumentConfig{Type: graphql.String},
 	}
 	// answer first, then scribble over everything that was received
 	echoAndMutate := func(p graphql.ResolveParams) (interface{}, error) {
@@ -113,6 +131,7 @@ func newSchema(tag string) *graphql.Schema {
 						return out, nil
 					}},
 				"mut":   &graphql.Field{Type: graphql.String, Args: mutArgs, Resolve: echoAndMutate},
+				"coll":  &graphql.Field{Type: graphql.String, Args: collArgs, Resolve: echoAndMutate},
 				"next":  &graphql.Field{Type: itemT, Resolve: func(p graphql.ResolveParams) (interface{}, error) { return item{idOf(p.Source) + 1}, nil }},
 				"owner": &graphql.Field{Type: personT, Resolve: func(p graphql.ResolveParams) (interface{}, error) { return person{idOf(p.Source) * 10}, nil }},
 			}
@@ -145,6 +164,10 @@ func newSchema(tag string) *graphql.Schema {
 			"o": &graphql.ArgumentConfig{Type: pt}, "id": &graphql.ArgumentConfig{Type: graphql.ID},
 		}, Resolve: echoAndMutate},
 		"mut": &graphql.Field{Type: graphql.String, Args: mutArgs, Resolve: echoAndMutate},
+		// list / input-object arguments over strings (family dedupeCollision): different literals of one type whose coerced Go
+		// values have the same fmt %v text must still reach their own resolver
+		"coll":  &graphql.Field{Type: graphql.String, Args: collArgs, Resolve: echoAndMutate},
+		"coll2": &graphql.Field{Type: graphql.String, Args: collArgs, Resolve: echoAndMutate},
 		// one named input type under every wrapper shape: equal literals at these positions must not share a variable
 		"opt":     &graphql.Field{Type: graphql.String, Args: graphql.FieldConfigArgument{"v": &graphql.ArgumentConfig{Type: graphql.Int}}, Resolve: echoAndMutate},
 		"req":     &graphql.Field{Type: graphql.String, Args: graphql.FieldConfigArgument{"v": &graphql.ArgumentConfig{Type: graphql.NewNonNull(graphql.Int)}}, Resolve: echoAndMutate},
@@ -190,7 +213,7 @@ func newSchema(tag string) *graphql.Schema {
 		"bump": &graphql.Field{Type: graphql.String, Args: graphql.FieldConfigArgument{"by": &graphql.ArgumentConfig{Type: graphql.Int}},
 			Resolve: func(p graphql.ResolveParams) (interface{}, error) { return fmt.Sprintf("%s:bump%d", tag, intArg(p, "by", 1)), nil }},
 	}})
-	s, err := graphql.NewSchema(graphql.SchemaConfig{Query: query, Mutation: mutation, Types: []graphql.Type{itemT, personT, thing, color, pt, nest}})
+	s, err := graphql.NewSchema(graphql.SchemaConfig{Query: query, Mutation: mutation, Types: []graphql.Type{itemT, personT, thing, color, pt, nest, mood, pair}})
 	if err != nil {
 		panic("test schema does not build: " + err.Error())
 	}
@@ -203,8 +226,12 @@ func schemaDesc() *gq.SchemaDesc {
 	a := func(name, typ string) gq.ArgDesc { return gq.ArgDesc{Name: name, Type: typ} }
 	ad := func(name, typ string, d interface{}) gq.ArgDesc { return gq.ArgDesc{Name: name, Type: typ, Default: d, HasDef: true} }
 	mutArgs := []gq.ArgDesc{a("o", "Pt"), a("l", "[Int]"), a("ll", "[[Int]]"), a("os", "[Pt]"), a("n", "Nest")}
+	collArgs := []gq.ArgDesc{a("ss", "[String]"), a("sr", "[String!]"), a("sss", "[[String]]"), a("ids", "[ID]"), a("p", "Pair"), a("ps", "[Pair]"),
+		a("ms", "[Mood]"), a("fs", "[Float]"), a("f", "Float"), a("id", "ID"), a("s", "String")}
 	mutation := "Mutation"
 	return &gq.SchemaDesc{Query: "Query", Mutation: &mutation, Types: []gq.TypeDesc{
+		{Kind: "ENUM", Name: "Mood", Values: []gq.EnumValDesc{{Name: "HAPPY", Internal: "h"}, {Name: "SAD", Internal: "s"}, {Name: "BOTH", Internal: "h s"}}},
+		{Kind: "INPUT_OBJECT", Name: "Pair", InputFields: []gq.ArgDesc{a("a", "String"), a("b", "String")}},
 		{Kind: "ENUM", Name: "Color", Values: []gq.EnumValDesc{{Name: "RED", Internal: "R"}, {Name: "GREEN", Internal: "G"}, {Name: "BLUE", Internal: "B"}}},
 		{Kind: "INPUT_OBJECT", Name: "Pt", InputFields: []gq.ArgDesc{ad("x", "Int", 7), a("y", "Int")}},
 		{Kind: "INPUT_OBJECT", Name: "Nest", InputFields: []gq.ArgDesc{a("p", "Pt"), a("l", "[Int]"), a("ps", "[Pt]"), a("ll", "[[Int]]")}},
@@ -215,12 +242,13 @@ func schemaDesc() *gq.SchemaDesc {
 			{Name: "id", Type: "Int"}, {Name: "kind", Type: "String"},
 			{Name: "name", Type: "String", Args: []gq.ArgDesc{a("prefix", "String"), a("sep", "String")}},
 			{Name: "tags", Type: "[String]", Args: []gq.ArgDesc{ad("first", "Int", 2)}},
-			{Name: "mut", Type: "String", Args: mutArgs}, {Name: "next", Type: "Item"}, {Name: "owner", Type: "Person"}}},
+			{Name: "mut", Type: "String", Args: mutArgs}, {Name: "coll", Type: "String", Args: collArgs}, {Name: "next", Type: "Item"}, {Name: "owner", Type: "Person"}}},
 		{Kind: "UNION", Name: "Thing", Members: []string{"Item", "Person"}, ResolveType: true},
 		{Kind: "OBJECT", Name: "Query", Fields: []gq.FieldDesc{
 			{Name: "tag", Type: "String"},
 			{Name: "echo", Type: "String", Args: []gq.ArgDesc{a("s", "String"), a("i", "Int"), a("f", "Float"), a("b", "Boolean"), a("l", "[Int]"), a("e", "Color"), a("o", "Pt"), a("id", "ID")}},
 			{Name: "mut", Type: "String", Args: mutArgs},
+			{Name: "coll", Type: "String", Args: collArgs}, {Name: "coll2", Type: "String", Args: collArgs},
 			{Name: "opt", Type: "String", Args: []gq.ArgDesc{a("v", "Int")}}, {Name: "req", Type: "String", Args: []gq.ArgDesc{a("v", "Int!")}},
 			{Name: "list", Type: "String", Args: []gq.ArgDesc{a("vs", "[Int]")}}, {Name: "listReq", Type: "String", Args: []gq.ArgDesc{a("vs", "[Int!]")}},
 			{Name: "reqList", Type: "String", Args: []gq.ArgDesc{a("vs", "[Int]!")}}, {Name: "nested", Type: "String", Args: []gq.ArgDesc{a("vs", "[[Int]]")}},
@@ -440,6 +468,57 @@ func families() [][]poolEntry {
 			e("wrappers", `{ a: opt(v: 7) ... on Query { b: req(v: 7) c: list(vs: 7) } d: opt(v: 7) e: req(v: 7) }`, true),
 			e("wrappers", `{ a: req(v: 7) ... on Query { b: opt(v: 7) c: reqList(vs: 7) } d: req(v: 7) e: opt(v: 8) }`, true),
 			ev("wrappers", `query Q($v: Int!) { opt(v: $v) req(v: $v) a: opt(v: 5) b: req(v: 5) list(vs: [$v, 5]) c: list(vs: 5) }`, true, []string{"Q"}, V("v", 5), V("v", 6)),
+		},
+		{ // dedupeCollision: two or more arguments of ONE type in one operation whose literals are DIFFERENT values but whose coerced
+			// Go values print alike under fmt %v (["a b"] / ["a","b"], [] / [""], {a:"1 b:2"} / {a:"1",b:"2"}, [BOTH] / [HAPPY,SAD],
+			// ["1 2"] / [1,2] for [ID]; this parser has no null literal): each must keep its own synthetic variable and reach its own resolver.
+			// Next to them: the same literal twice (ONE variable), different spellings of one value (1 / 1.0, 4 / "4", reordered
+			// object fields: as many variables as the model of the normaliser says), controls whose renderings differ, the same
+			// shapes below item / in inline fragments / next to a user variable / under one response key (must be rejected when
+			// the values differ, merged when they are equal).
+			e("dedupeCollision", `{ a: coll(ss: ["a b"]) b: coll(ss: ["a", "b"]) }`, true),
+			e("dedupeCollision", `{ a: coll(ss: ["a", "b"]) b: coll(ss: ["a b"]) }`, true),
+			e("dedupeCollision", `{ a: coll(ss: []) b: coll(ss: [""]) }`, true),
+			e("dedupeCollision", `{ a: coll(ss: [""]) b: coll(ss: []) c: coll(ss: [""]) }`, true),
+			e("dedupeCollision", `{ a: coll(ss: [" "]) b: coll(ss: ["", ""]) }`, true),
+			e("dedupeCollision", `{ coll(ss: ["a b"]) coll2(ss: ["a", "b"]) }`, true),
+			e("dedupeCollision", `{ coll(ss: ["a", "b"]) coll2(ss: ["a", "b"]) }`, true),
+			e("dedupeCollision", `{ a: coll(ss: ["a b"]) b: coll(ss: ["a b"]) }`, true),
+			e("dedupeCollision", `{ a: coll(ss: ["a", "b"]) b: coll(ss: ["a", "c"]) }`, true),
+			e("dedupeCollision", `{ a: coll(ss: "a b") b: coll(ss: ["a", "b"]) c: coll(ss: ["a b"]) }`, true),
+			e("dedupeCollision", `{ a: coll(ss: ["[a", "b]"]) b: coll(ss: ["[a b]"]) }`, true),
+			e("dedupeCollision", `{ a: coll(sr: ["x y z"]) b: coll(sr: ["x", "y z"]) c: coll(sr: ["x y", "z"]) d: coll(sr: ["x", "y", "z"]) }`, true),
+			e("dedupeCollision", `{ a: coll(sr: ["x", "y", "z"]) b: coll(sr: ["x y", "z"]) c: coll(sr: ["x", "y", "z"]) }`, true),
+			e("dedupeCollision", `{ a: coll(ss: ["a b"], sr: ["a b"]) b: coll(ss: ["a", "b"], sr: ["a", "b"]) }`, true),
+			e("dedupeCollision", `{ a: coll(sss: [["a b"]]) b: coll(sss: [["a", "b"]]) }`, true),
+			e("dedupeCollision", `{ a: coll(sss: [["a"], ["b"]]) b: coll(sss: [["a] [b"]]) }`, true),
+			e("dedupeCollision", `{ a: coll(sss: [[]]) b: coll(sss: [[""]]) c: coll(sss: []) d: coll(sss: [[], []]) e: coll(sss: [[" "]]) }`, true),
+			e("dedupeCollision", `{ a: coll(ids: ["1 2"]) b: coll(ids: [1, 2]) }`, true),
+			e("dedupeCollision", `{ a: coll(ids: [1, 2]) b: coll(ids: ["1", "2"]) c: coll(ids: ["1 2"]) }`, true),
+			e("dedupeCollision", `{ a: coll(p: {a: "1 b:2"}) b: coll(p: {a: "1", b: "2"}) }`, true),
+			e("dedupeCollision", `{ coll(p: {a: "1", b: "2"}) coll2(p: {a: "1 b:2"}) }`, true),
+			e("dedupeCollision", `{ a: coll(p: {a: "x", b: "y"}) b: coll(p: {b: "y", a: "x"}) }`, true),
+			e("dedupeCollision", `{ a: coll(p: {a: "x", b: "y"}) b: coll(p: {a: "x", b: "y"}) }`, true),
+			e("dedupeCollision", `{ a: coll(p: {}) b: coll(p: {a: ""}) c: coll(p: {b: ""}) d: coll(p: {a: "", b: ""}) e: coll(p: {a: " b:"}) }`, true),
+			e("dedupeCollision", `{ a: coll(ps: [{a: "1"}, {a: "2"}]) b: coll(ps: [{a: "1] map[a:2"}]) }`, true),
+			e("dedupeCollision", `{ a: coll(ps: [{a: "1 b:2"}]) b: coll(ps: [{a: "1", b: "2"}]) c: coll(ps: {a: "1", b: "2"}) }`, true),
+			e("dedupeCollision", `{ a: coll(ms: [BOTH]) b: coll(ms: [HAPPY, SAD]) }`, true),
+			e("dedupeCollision", `{ a: coll(ms: [HAPPY, SAD]) b: coll(ms: [BOTH]) c: coll(ms: [HAPPY, SAD]) }`, true),
+			e("dedupeCollision", `{ a: coll(f: 1) b: coll(f: 1.0) }`, true),
+			e("dedupeCollision", `{ a: coll(fs: [1, 2]) b: coll(fs: [1.0, 2.0]) c: coll(fs: [1, 2]) }`, true),
+			e("dedupeCollision", `{ a: coll(id: 4) b: coll(id: "4") }`, true),
+			e("dedupeCollision", `{ a: coll(s: "a b") b: coll(s: "a  b") c: coll(s: "a b") }`, true),
+			e("dedupeCollision", `{ item(id: 1) { a: coll(ss: ["a b"]) b: coll(ss: ["a", "b"]) } }`, true),
+			e("dedupeCollision", `{ a: coll(ss: ["a b"]) item(id: 2) { coll(ss: ["a", "b"]) next { coll(ss: ["a b"]) } } }`, true),
+			e("dedupeCollision", `{ items(n: 2) { a: coll(p: {a: "1 b:2"}) b: coll(p: {a: "1", b: "2"}) } }`, true),
+			e("dedupeCollision", `{ a: coll(ss: ["a b"]) ... on Query { b: coll(ss: ["a", "b"]) } }`, true),
+			e("dedupeCollision", `{ coll(ss: ["a b"]) coll(ss: ["a", "b"]) }`, true),
+			e("dedupeCollision", `{ coll(ss: ["a b"]) coll(ss: ["a b"]) }`, true),
+			e("dedupeCollision", `{ coll(p: {a: "1 b:2"}) ... on Query { coll(p: {a: "1", b: "2"}) } }`, true),
+			ev("dedupeCollision", `query Q($v: [String]) { a: coll(ss: $v) b: coll(ss: ["a b"]) c: coll(ss: ["a", "b"]) }`, true, []string{"Q"},
+				V("v", []interface{}{"a b"}), V("v", []interface{}{"a", "b"}), nil),
+			ev("dedupeCollision", `query Q($p: Pair) { a: coll(p: $p) b: coll(p: {a: "1", b: "2"}) c: coll(p: {a: "1 b:2"}) }`, true, []string{"Q"},
+				V("p", map[string]interface{}{"a": "1 b:2"}), nil),
 		},
 		{ // rejected requests: parse errors, validation errors, wrong literal types (errors are cached too)
 			e("invalid", `{ nope }`, true), e("invalid", `{ nope2 }`, true), e("invalid", `{`, true), e("invalid", `{ tag `, true),
